@@ -40,7 +40,7 @@ type CrashPlan struct {
 	SecondQ int
 	Round2  bool // even heights need two rounds: the round-1 proposal and its parts are not forwarded (nil votes, timeouts
 	// and a second proposer in the WAL at the crash points)
-	Late    bool // crash at the LAST instant with durable prefix p: just before unit p+1 is written (everything the
+	Late bool // crash at the LAST instant with durable prefix p: just before unit p+1 is written (everything the
 	// node did since unit p - handled and gossiped messages included - is lost with the unsynced buffers)
 }
 
